@@ -290,7 +290,7 @@ T Li_inverse_overflow_check(T x)
   FLOAT res = Li_inverse((FLOAT) x);
 
   // Prevent integer overflow
-  if (res > (FLOAT) pstd::numeric_limits<T>::max())
+  if (res >= (FLOAT) pstd::numeric_limits<T>::max())
     return pstd::numeric_limits<T>::max();
   else
     return (T) res;
